@@ -38,6 +38,7 @@ type HarnessResult struct {
 	Funcs       map[string]struct{}
 	Samples     []map[string]interface{}
 	Witness     *Violation // a completed path with model, for the reachability replay
+	Witnesses   []*Violation
 	WallS       float64
 	MaxPaths    int
 	Truncated   bool
@@ -143,6 +144,9 @@ func explore(p *Program, pkg *ssa.Package, fnName string, params map[string]int,
 				if res.Outcome == "done" && res.Sample != nil {
 					if hr.Witness == nil {
 						hr.Witness = &Violation{Sig: "<done>", Model: res.Sample, Choices: res.choicesCopy, Harness: fnName}
+					}
+					if len(hr.Witnesses) < 3 {
+						hr.Witnesses = append(hr.Witnesses, &Violation{Sig: "<done>", Model: res.Sample, Choices: res.choicesCopy, Harness: fnName})
 					}
 					if len(hr.Samples) < 3 {
 						hr.Samples = append(hr.Samples, map[string]interface{}{
